@@ -1690,7 +1690,7 @@ def transpose(surf, **kwargs):
     else:
         geom = surf
 
-    trims_done = set()  # a trim curve which belongs to several surfaces is transposed once
+    trims_done = set()  # a trim curve which belongs to several surfaces or to several trim loops is transposed once
     for g in ops.unique_geometries(geom):
         # Get existing data
         degree_u_new = g.degree_v
@@ -1719,9 +1719,7 @@ def transpose(surf, **kwargs):
 
         # The trim curves are defined on the parametric space of the surface
         for trim in g.trims:
-            if id(trim) not in trims_done:
-                trims_done.add(id(trim))
-                ops.swap_trim_coordinates(trim)
+            ops.swap_trim_coordinates(trim, trims_done)
 
     return geom
 
